@@ -25,6 +25,10 @@ for d in sorted(glob.glob(os.path.join(V, "seeded", "C*-*"))):
                 dets.append(f"{chk}: failing input ({(k[1] if len(k)>1 else '')[:60]})" + (f" + {nb} broken obligations" if nb != "0" else ""))
     except OSError:
         dets.append("not run yet")
+    if meta.get("superseded"):
+        # the change no longer breaks the property on the current tree (a later fix: commit
+        # neutralised it; its demonstration passes with the patch applied) - silence is right
+        dets = [d.replace("**missed**", "silent, correctly: " + str(meta["superseded"])[:160]) for d in dets]
     rows.append(f"| {sid} | {files} | {summ} | {'; '.join(dets).replace('|','/')} |")
 table = "| seed | files | change | detected by (quick tier) |\n|---|---|---|---|\n" + "\n".join(rows)
 p = os.path.join(V, "DESIGN.md")
